@@ -41,6 +41,7 @@ type World struct {
 	Files   map[string]bool // repo-relative files parsed
 
 	roles *roleInfo
+	escMemo map[*ssa.Function]bool
 	comm  *commTable
 }
 
@@ -245,7 +246,7 @@ func (w *World) buildCallGraph() {
 					seen[f] = true
 				}
 				for _, f := range chaBySite[site] {
-					if !seen[f] && (w.inModule(f) || w.wrapsModule(f)) {
+					if !seen[f] && (w.inModule(f) || w.wrapsModule(f)) && w.escapesToClient(f) {
 						seen[f] = true
 						out = append(out, f)
 					}
@@ -418,4 +419,72 @@ func anonFuncsOf(fn *ssa.Function) []*ssa.Function {
 	}
 	rec(fn)
 	return out
+}
+
+// escapesToClient: can this function value reach client code (and so come back through an
+// API parameter)? A closure whose every use is a channel send, a select send, a local call,
+// go or defer only travels through channels the module owns - VTA routes those precisely -
+// and is excluded from the CHA fallback for round-trip call sites.
+func (w *World) escapesToClient(f *ssa.Function) bool {
+	if f.Parent() == nil {
+		return true // named functions and methods: reachable through interfaces / exported names
+	}
+	if w.escMemo == nil {
+		w.escMemo = map[*ssa.Function]bool{}
+	}
+	if v, ok := w.escMemo[f]; ok {
+		return v
+	}
+	esc := false
+	seen := map[ssa.Value]bool{}
+	var visit func(v ssa.Value)
+	visit = func(v ssa.Value) {
+		if seen[v] || esc {
+			return
+		}
+		seen[v] = true
+		refs := v.Referrers()
+		if refs == nil {
+			esc = true
+			return
+		}
+		for _, ref := range *refs {
+			switch x := ref.(type) {
+			case *ssa.Send:
+				if x.X != v {
+					esc = true
+				}
+			case *ssa.Select:
+				// send operand of a select state
+			case *ssa.Call:
+				if x.Call.Value != v {
+					esc = true // passed as an argument
+				}
+			case *ssa.Go:
+				if x.Call.Value != v {
+					esc = true
+				}
+			case *ssa.Defer:
+				if x.Call.Value != v {
+					esc = true
+				}
+			case *ssa.DebugRef:
+			case *ssa.ChangeType:
+				visit(x)
+			case *ssa.Phi:
+				visit(x)
+			default:
+				esc = true
+			}
+		}
+	}
+	for _, b := range f.Parent().Blocks {
+		for _, in := range b.Instrs {
+			if mc, ok := in.(*ssa.MakeClosure); ok && mc.Fn == f {
+				visit(mc)
+			}
+		}
+	}
+	w.escMemo[f] = esc
+	return esc
 }
